@@ -430,12 +430,13 @@ def meta_bytes(run, coll, c):
             try:
                 head = rp[rp.head()]
             except KeyError:
-                return b""
+                return b"absent"
             tree = rp[head.tree]
             try:
-                return rp[tree[b".xandikos"][1]].data
+                return b"present:" + rp[tree[b".xandikos"][1]].data
             except KeyError:
-                return b""
+                # no .xandikos file at all is another tree than an empty one
+                return b"absent"
         finally:
             rp.close()
     finally:
